@@ -2,7 +2,7 @@
    Only statements here; proofs are in Proofs/C16.v.  All four theorems hold for every N, hence for
    every 64-bit set; no range hypothesis is needed. *)
 From Coq Require Import String.
-From CKC Require Import Base.Prelude Spec.Layout Model.Hands Model.Binary Proofs.C15 Proofs.C16.
+From CKC Require Import Base.Prelude Spec.Layout Model.Hands Model.Binary Proofs.BcPeel Proofs.C16.
 From CKC Require Import Gen.Consts Gen.Enums.
 Open Scope N_scope.
 
